@@ -3,6 +3,8 @@ import PyamgV.Proofs.C05Sym
 import PyamgV.Proofs.Pd
 import PyamgV.Proofs.GsStrict
 import PyamgV.Proofs.GsArrayRefine
+import PyamgV.Proofs.Cycle
+import PyamgV.Proofs.GsSweep
 
 /-! # C05 — a solver that reports symmetric smoothing yields a Hermitian preconditioner
 
@@ -65,6 +67,9 @@ restate gs_isLinIter := PyamgV.C05.gs_isLinIter
 /-- a weighted Jacobi step over distinct rows (all rows, or the C or F points of cf/fc Jacobi) is the linear
 iteration with operator `jacOp` -/
 restate jac_isLinIter := PyamgV.C05.jac_isLinIter
+/-- every smoother of the cycle model (Gauss–Seidel/SOR in the three sweep modes, Jacobi, cf/fc Jacobi,
+none; any iteration counts) is the linear iteration `x + smOp (b − A x)` at the level of the kernel rows -/
+restate sm_isLinIter := PyamgV.C05.sm_isLinIter
 /-- `k` repetitions of a linear iteration are the linear iteration with operator `powM` -/
 restate isLinIter_pow := PyamgV.IsLinIter.pow
 /-- the executable array kernel (the one compared bit-exactly with relaxation.h) refines the
@@ -82,8 +87,18 @@ restate Mop_sym := PyamgV.Mop_sym
 /-- **flag `True` ⇒ `⟨M u, v⟩ = ⟨u, M v⟩` for the V- and the W-cycle** (smoothers of the cycle model) -/
 restate flag_cycle_symmetric := PyamgV.C05.flag_cycle_symmetric
 
+/-- the same for the recursion of `__solve` itself: one V- or W-cycle is `x + M (b − A x)` with symmetric `M` -/
+restate flag_cycle_preconditioner := PyamgV.C05.flag_cycle_preconditioner
+
 /-! ## definiteness -/
 
+/-- V/W/F cycles over non-expansive smoothers, Galerkin coarse matrices and an exact coarsest solve never
+increase the energy norm of the error -/
+restate cyc_nonexp := PyamgV.cyc_nonexp
+/-- Gauss–Seidel sweeps in any order are non-expansive in the energy norm (A symmetric positive semidefinite) -/
+restate gsSweep_nonexp := PyamgV.gsSweep_nonexp
+/-- SOR sweeps in any order with `0 ≤ ω ≤ 2` are non-expansive -/
+restate sorSweep_nonexp := PyamgV.sorSweep_nonexp
 /-- a non-expansive linear iteration has `⟨M r, r⟩ ≥ 0` on the range of `A` -/
 restate precond_psd := PyamgV.precond_psd
 /-- `⟨M r, r⟩ > 0` where the iteration strictly reduces the energy of the error -/
